@@ -22,6 +22,9 @@ MUT = {
     # ---- C12
     "revert-70e9813": lambda wt: subprocess.check_call(["git", "-C", wt, "revert", "--no-commit", "70e9813"]),
     "revert-c4ed83a": lambda wt: subprocess.check_call(["git", "-C", wt, "revert", "--no-commit", "c4ed83a"]),
+    "revert-975a6e9": lambda wt: subprocess.check_call(["git", "-C", wt, "revert", "--no-commit", "975a6e9"]),
+    "revert-bd64f96": lambda wt: subprocess.check_call(["git", "-C", wt, "revert", "--no-commit", "bd64f96"]),
+    "revert-dbde83c": lambda wt: subprocess.check_call(["git", "-C", wt, "revert", "--no-commit", "dbde83c"]),
     "unpause-keeps-key": lambda wt: rx(wt + "/fsm/validator.go",
         r"if err := s\.Delete\(KeyForPaused\(validator\.MaxPausedHeight, address\)\); err != nil \{\s*return err\s*\}", "_ = KeyForPaused"),
     "updatecommittees-no-sub": lambda wt: sub(wt + "/fsm/committee.go",
@@ -65,17 +68,16 @@ def main():
     subprocess.call(["git", "-C", "/repo", "worktree", "remove", "--force", wt], stdout=subprocess.DEVNULL, stderr=subprocess.DEVNULL)
     subprocess.check_call(["git", "-C", "/repo", "worktree", "add", "-q", "--detach", wt, "HEAD"])
     try:
-        # candidate fixes that are not committed yet (skipped once they are in HEAD)
-        for pf in ("/tmp/stk-gov.patch", "/tmp/stk-maj.patch", "/tmp/stk-ovf.patch"):
-            if os.path.exists(pf) and subprocess.call(["git", "-C", wt, "apply", "--check", pf], stderr=subprocess.DEVNULL) == 0:
-                subprocess.check_call(["git", "-C", wt, "apply", pf])
         MUT[name](wt)
         print(subprocess.run(["git", "-C", wt, "diff", "HEAD", "--stat"], capture_output=True, text=True).stdout.strip().splitlines()[-1])
         env = dict(os.environ, VERIF_REPO=wt, VERIF_SEED=seed)
         r = subprocess.run(["/verif/check", pid, "quick"], env=env, capture_output=True, text=True)
-        lines = [l for l in r.stdout.splitlines() if re.search(r"VIOLATION|KNOWN|INCONCLUSIVE|BUILD|evaluations=|WEDGE|Supply\.|marker|c\d\d_test.go:\d+: ", l)]
-        print("[%s -> %s] exit=%d" % (name, pid, r.returncode))
-        print("\n".join(lines[:8]))
+        out = r.stdout.splitlines()
+        why = [l.strip() for l in out if re.search(r"(c\d\d|reg)_test.go:\d+: ", l) and "[rapid]" not in l]
+        verdict = [l for l in out if re.search(r"KNOWN|INCONCLUSIVE|BUILD|evaluations=", l)]
+        nviol = len([l for l in out if l.startswith("VIOLATION")])
+        print("[%s -> %s] exit=%d violations=%d" % (name, pid, r.returncode, nviol))
+        print("\n".join(verdict[:3] + why[:3]))
     finally:
         subprocess.call(["git", "-C", "/repo", "worktree", "remove", "--force", wt])
 
